@@ -6,15 +6,25 @@ cd /verif
 wt=/var/tmp/wt-benign
 git -C /repo worktree remove --force $wt 2>/dev/null
 git -C /repo worktree add -q --detach $wt HEAD || exit 2
-(cd $wt && GVC_REPO=$wt /var/tmp/gvc_benign verify 2>&1 | grep '^FAILED-OBLIGATION' | sort > /var/tmp/benign_base.txt)
-rc=0
-for d in selftest/benign/*/; do
+rc=0; rm -f /var/tmp/benign_base.txt
+items="$@"; [ -n "$items" ] || items=$(ls -d selftest/benign/*/)
+for d in $items; do
+  d=${d%/}/; case $d in selftest/*) ;; *) d=selftest/benign/$d;; esac
   n=$(basename $d)
+  base=/var/tmp/benign_base.txt; funcs=""
+  if [ -f /verif/$d/funcs.txt ]; then
+    # the item names the functions it touches: only their contracts are run (before and after the edit)
+    funcs=$(cat /verif/$d/funcs.txt); base=/var/tmp/benign_base_i.txt
+    (cd $wt && GVC_REPO=$wt /var/tmp/gvc_benign verify $funcs 2>&1 | grep '^FAILED-OBLIGATION' | sort > $base)
+  fi
+  if [ -z "$funcs" ] && [ ! -f /var/tmp/benign_base.txt ]; then
+    (cd $wt && GVC_REPO=$wt /var/tmp/gvc_benign verify 2>&1 | grep '^FAILED-OBLIGATION' | sort > /var/tmp/benign_base.txt)
+  fi
   git -C $wt apply /verif/$d/patch.diff || { echo "$n: does not apply"; rc=1; continue; }
-  (cd $wt && GVC_REPO=$wt /var/tmp/gvc_benign verify 2>&1 | grep '^FAILED-OBLIGATION' | sort > /var/tmp/benign_cur.txt)
-  new=$(comm -13 /var/tmp/benign_base.txt /var/tmp/benign_cur.txt)
+  (cd $wt && GVC_REPO=$wt /var/tmp/gvc_benign verify $funcs 2>&1 | grep '^FAILED-OBLIGATION' | sort > /var/tmp/benign_cur.txt)
+  new=$(comm -13 $base /var/tmp/benign_cur.txt)
   if [ -n "$new" ]; then echo "$n: FALSE ALARM"; echo "$new" | head -5; rc=1; else echo "$n: quiet"; fi
   git -C $wt apply -R /verif/$d/patch.diff
 done
-git -C /repo worktree remove --force $wt; rm -f /var/tmp/gvc_benign /var/tmp/benign_base.txt /var/tmp/benign_cur.txt
+git -C /repo worktree remove --force $wt; rm -f /var/tmp/gvc_benign /var/tmp/benign_base.txt /var/tmp/benign_base_i.txt /var/tmp/benign_cur.txt
 exit $rc
